@@ -243,6 +243,20 @@ CHECKS = {
         TRUSTED + "; only grid-coincident poses carry an exact expectation",
         "DESIGN.md 4/C14",
     ),
+    "C19": (
+        "model_checking",
+        "spec/Pipe.tla gives image pipelines a denotational semantics (Eval) over tiny rational images: @ is nested "
+        "application, operators act voxel-wise for both operand orders and for scalars on either side, comparisons give "
+        "0/1, base providers/converters carry a physical parameter multiplied by the scale; TLC enumerates EVERY expression "
+        "up to depth 2 at three scales plus all associativity triples, checks associativity and the reflected-operator law "
+        "on the denotation and emits each program's value; every program is rebuilt from real ImageProvider/ImageConverter "
+        "objects created with provider_function/converter_function and evaluated. The nm->pixel radius rule and ball sizes "
+        "come from TLC; unit covariance, the Gaussian provider, rescaling providers, extensivity/range of the mask "
+        "converters and loader.normalize_input are checked as the relations the property states.",
+        "TLA+ spec Pipe.tla (denotational Eval) model-checked by TLC; every enumerated program replayed on real pipeline objects",
+        TRUSTED + "; a provider on the LEFT of a converter-level operator has no documented meaning and is not claimed",
+        "DESIGN.md 4/C19",
+    ),
 }
 
 REASON_TODO = "check not built yet in this round (planned: see DESIGN.md section 4)"
